@@ -9,6 +9,7 @@
    atomic), so the theorems about them carry the hypothesis that the history is outside KnownClass. *)
 From ChiaV.Base Require Import Bytes.
 From ChiaV.Gen Require Import Dl.
+From Coq Require Import Permutation.
 From ChiaV.Dl Require Import Format Map.
 Open Scope N_scope.
 
@@ -29,6 +30,8 @@ Definition ot_kv (ot : option tree) : kvmap := match ot with Some t => t_kv t | 
 Fixpoint t_size (t : tree) : nat :=
   match t with TLeaf _ _ _ => 1 | TNode _ _ l r => S (t_size l + t_size r) end.
 Definition ot_leaf_count (ot : option tree) : nat := length (ot_kv ot).
+
+Definition tkeys (t : tree) : list N := mkeys (t_kv t).
 
 Inductive tloc := TAuto | TRoot | TKey (ref : N) (sd : side).
 
@@ -75,7 +78,7 @@ Section TreeH.
   Definition t_auto (key : N) (t : tree) : option (N * side) :=
     match H (n2be KEY_BYTES key) with
     | [] => None
-    | b0 :: _ as seed =>
+    | (b0 :: _) as seed =>
         let rs := rev seed in
         match t_walk (4 * t_size t + 4) t (seed_bits rs) rs with
         | Some ref => Some (ref, if N.testbit (b2n b0) 7 then SRight else SLeft)
@@ -193,9 +196,6 @@ Section TreeH.
         end
     end.
 
-  Definition pop_last {A} (l : list A) : option (list A * A) :=
-    match rev l with [] => None | x :: r => Some (rev r, x) end.
-
   Definition t_batch (items : list item) (ot : option tree) : tres :=
     if (ot_leaf_count ot <=? 1)%nat then
       match pop_last items with
@@ -257,4 +257,20 @@ Section TreeH.
     | TLeaf _ _ _ => true
     | TNode _ d l r => negb d && t_all_clean l && t_all_clean r
     end.
+  (* L1 well-formedness: a clean node has only clean descendants and stores the internal hash of
+     its children's stored hashes (dirty is upward closed; leaves are never dirty by construction) *)
+  Fixpoint twf (t : tree) : Prop :=
+    match t with
+    | TLeaf _ _ _ => True
+    | TNode hh d l r =>
+        twf l /\ twf r /\
+        (d = false -> t_all_clean l = true /\ t_all_clean r = true /\ hh = ih (t_hash l) (t_hash r))
+    end.
+
+  Definition owf (ot : option tree) : Prop := match ot with Some t => twf t | None => True end.
+
+  (* the L1 -> L0 refinement relation: the tree's leaves are exactly the entries of the plain map,
+     the plain map has duplicate-free keys and hashes, the tree is well-formed *)
+  Definition tree_refines (ot : option tree) (m : kvmap) : Prop :=
+    Permutation (ot_kv ot) m /\ m_ok m /\ owf ot.
 End TreeH.
